@@ -64,6 +64,10 @@ var c10BaseQueries = []string{
 	"SELECT id, SPIN.fx(1, a DIV (id - 2)), SPINASYNC.fx(2, `n[1].v`) FROM t",
 	"SELECT * FROM t x PARALLEL JOIN u y ON x.id = y.id AND SETVAR('k', 1)",
 	"SELECT id, (SELECT SETVAR('k', v) FROM n) AS sub FROM t",
+	"SELECT id, a FROM grid WHERE a >= 10",
+	"SELECT DISTINCT s, (SELECT v FROM n) AS sub FROM grid",
+	"SELECT id, ASYNC.fx(1, a) AS y, (SELECT * FROM dual) AS me FROM grid",
+	"WITH c AS (SELECT id, (SELECT `<-` AS up FROM dual) AS sub FROM t) SELECT DISTINCT * FROM c",
 }
 
 // the cases named in the statement
@@ -127,6 +131,30 @@ var c10Named = []struct {
 	{"SELECT id, CHANGETYPE(a, 'nosuchtype') AS x, CHANGETYPE(n, 'double') AS y FROM t", false},
 	{"SELECT id, HASH(a, 'nosuch') AS x, ENCODE(s, 'nosuch') AS y, DECODE(s, 'base64') AS z FROM t", false},
 	{"SELECT id, CONSTANT('nosuch') AS x, DATERANGE(1, 2) AS y, TIMESTAMP() AS z FROM t", false},
+	// rows are formatted (DISTINCT, distinct=>) while they hold, or once held, the `<-` back-reference
+	{"SELECT DISTINCT id, (SELECT `<-` AS up FROM dual) AS s FROM t", false},
+	{"WITH c AS (SELECT id, (SELECT `<-` AS up FROM dual) AS s FROM t) SELECT DISTINCT id, s FROM c", false},
+	{"WITH c AS (SELECT id, (SELECT `<-` AS up, v FROM n) AS s FROM t) SELECT DISTINCT * FROM c", false},
+	{"WITH c AS (SELECT id, (SELECT `<-` AS up FROM dual) AS s FROM t) SELECT * FROM `distinct=>c`", false},
+	{"WITH c AS (SELECT id, ARRAY(`<-`, 1) AS s FROM t WHERE EXISTS (SELECT ARRAY(`<-`) AS x FROM dual)) SELECT DISTINCT * FROM c", false},
+	{"WITH c AS (SELECT id, (SELECT FUSE(`<-`) FROM dual) AS s FROM t) SELECT DISTINCT * FROM c", false},
+	{"WITH c AS (SELECT id FROM t), d AS (SELECT id, (SELECT `<-` AS up FROM dual) AS s FROM c) SELECT DISTINCT * FROM d", false},
+	{"SELECT DISTINCT * FROM (SELECT id, (SELECT `<-` AS up FROM dual) AS s FROM t) d", false},
+	// FROM rows that are arrays themselves (one more dimension)
+	{"SELECT (SELECT * FROM dual) AS s FROM grid", false},
+	{"SELECT DISTINCT (SELECT * FROM dual) AS s FROM grid", false},
+	{"WITH c AS (SELECT (SELECT * FROM dual) AS s FROM grid) SELECT DISTINCT s FROM c", false},
+	{"WITH c AS (SELECT (SELECT * FROM dual) AS s FROM grid) SELECT * FROM `distinct=>c`", false},
+	{"SELECT DISTINCT * FROM grid", false},
+	{"SELECT id, ONCE.fx(1, 1) AS o, ASYNC.fx(2, a) AS y, SPINASYNC.fx(3, a) FROM grid", false},
+	{"SELECT s, COUNT(*) AS c FROM grid GROUP BY s HAVING COUNT(*) > 0 ORDER BY s LIMIT 1", false},
+	{"SELECT * FROM grid x JOIN u y ON x.id = y.id", false},
+	{"SELECT id, (SELECT v FROM n WHERE v > 0) AS sub FROM grid WHERE EXISTS (SELECT v FROM n)", false},
+	// run-once strategies nested in one another (each holds its own memo and lock)
+	{"SELECT id, GLOBAL.fx((SELECT 1 AS i FROM dual), (SELECT ONCE.fx(2, 5) AS x FROM dual)) AS g FROM t", false},
+	{"SELECT id, GLOBAL.fx((SELECT 1 AS i FROM dual), (SELECT GLOBAL.fx((SELECT 2 AS i FROM dual), (SELECT 5 AS x FROM dual)) AS x FROM dual)) AS g FROM t", false},
+	{"SELECT id, ONCE.fx(1, (SELECT ONCE.fx(2, 5) AS x FROM dual)) AS g, ONCE.fid(3, (SELECT GLOBAL.fx((SELECT 4 AS i FROM dual), (SELECT a FROM `<-t`)) AS x FROM dual)) AS h FROM t", false},
+	{"SELECT id, GLOBAL.fx((SELECT 1 AS i FROM dual), (SELECT ONCE.fx(2, 5) AS x, ASYNC.fx(3, 1) AS y FROM dual)) AS g FROM t WHERE ONCE.fx(4, 1) > 0", false},
 	{"SELECT id, FUSE(1) FROM t", false},
 	{"SELECT id, FUSE(n) FROM t", false},
 	{"SELECT id, IF(1, 2) AS x, IF() AS y FROM t", false},
@@ -251,7 +279,17 @@ func c10Doc(t *rapid.T) map[string]any {
 	for i := 0; i < rapid.IntRange(0, 3).Draw(t, "nu"); i++ {
 		us = append(us, map[string]any{"id": float64(rapid.IntRange(1, 4).Draw(t, "uid")), "b": "k", "g": rapid.Bool().Draw(t, "g")})
 	}
-	return map[string]any{"t": rows, "u": us, "meta": map[string]any{"ip": "10.0.0.1"}}
+	// grid: the same kind of rows, one dimension deeper
+	grid := []any{}
+	for i := 0; i < rapid.IntRange(0, 2).Draw(t, "ngrid"); i++ {
+		inner := []any{}
+		for j := 0; j < rapid.IntRange(0, 2).Draw(t, "ninner"); j++ {
+			inner = append(inner, map[string]any{"id": float64(i*2 + j + 1), "a": float64(rapid.IntRange(0, 3).Draw(t, "ga") * 10), "s": rapid.SampledFrom([]string{"x", "xy"}).Draw(t, "gs"),
+				"n": []any{map[string]any{"v": float64(j), "w": "p"}}})
+		}
+		grid = append(grid, inner)
+	}
+	return map[string]any{"t": rows, "u": us, "meta": map[string]any{"ip": "10.0.0.1"}, "grid": grid}
 }
 
 // oddValue draws a JSON-like value of arbitrary shape.
@@ -517,6 +555,11 @@ func corpusC10() []*Bundle {
 		},
 		"u":    []any{map[string]any{"id": 1.0, "b": "k", "g": true}, map[string]any{"id": 3.0, "b": "m", "g": false}},
 		"meta": map[string]any{"ip": "10.0.0.1"},
+		"grid": []any{
+			[]any{map[string]any{"id": 1.0, "a": 10.0, "s": "x", "n": []any{map[string]any{"v": 1.0, "w": "p"}}}, map[string]any{"id": 2.0, "a": 20.0, "s": "xy", "n": []any{}}},
+			[]any{map[string]any{"id": 3.0, "a": 10.0, "s": "x", "n": []any{map[string]any{"v": 0.0, "w": "q"}}}},
+			[]any{},
+		},
 	}
 	var out []*Bundle
 	for _, nc := range c10Named {
